@@ -108,7 +108,7 @@ def plain(row):
     return all(not a for _, a in row)
 
 
-def mk_array(case_rows, container):
+def mk_array(case_rows, container, built=None):
     """the array handed to render_to_terminal, in the shapes callers use:
     list            list of FmtStr
     str             list of plain str (all rows unformatted)
@@ -119,7 +119,7 @@ def mk_array(case_rows, container):
     fsarrayset:W    FSArray(n, W) filled with arr[i] = row, unformatted rows assigned as plain str
     text:N:W        BaseWindow.array_from_text_rc(text, N, W) (what window.array_from_text returns); the case's rows ARE
                     the rows this builder produced (container_for)"""
-    rows = [wire.mk_fmt(r) for r in case_rows]
+    rows = built if built is not None else [wire.mk_fmt(r) for r in case_rows]
     texts = ["".join(t for t, _ in r) for r in case_rows]
     kind, _, arg = container.partition(":")
     if kind == "str":
@@ -141,6 +141,102 @@ def mk_array(case_rows, container):
     return rows
 
 
+BUILDS = ("raw", "slice", "was", "add", "join", "mul", "splice", "ljust")
+
+
+def build_row(tc, recipe, w):
+    """A real FmtStr for the target runs `tc` made the way applications make rows - through the public FmtStr API
+    (over-long slices of a longer string = a horizontally scrolled view, +, join, *, splice, ljust, width_aware_slice) -
+    so that whatever the library memoises about a value (its length, width, text) reaches the renderer."""
+    from curtsies.formatstring import fmtstr
+    f = wire.mk_fmt(tc)
+    n = len(f)
+    kind, a, b = recipe
+    if kind == "raw" or n == 0:
+        return f
+    if kind in ("slice", "was"):
+        pre = wire.mk_fmt([("#" * a, {"fg": 34})])
+        g = pre + f
+        stop = a + max(n, w) + b                       # start > 0, stop past the end
+        return g[a:stop] if kind == "slice" else g.width_aware_slice(slice(a, stop))
+    k = min(a, n)
+    if kind == "add":
+        return f[:k] + f[k:]
+    if kind == "join":
+        return fmtstr("").join([f[:k], f[k:]])
+    if kind == "mul":
+        return (f * 2)[:n]
+    if kind == "splice":
+        lo, hi = min(a, n), min(max(a, b), n)
+        return f.splice(f[lo:hi], lo, hi) if lo < hi else f
+    if kind == "ljust":
+        cs = [(ch, at) for t, at in tc for ch in t]
+        j = n
+        while j > 0 and cs[j - 1] == (" ", {}):
+            j -= 1
+        return f[:j].ljust(n) if 0 < j < n else f
+    return f
+
+
+def built_rows(r, rows, w):
+    """-> (rows as the built values' own runs, recipes): the case's rows are what the API produced"""
+    out, recipes = [], []
+    for tc in rows:
+        rec = (r.choice(BUILDS), r.randint(1, 3), r.randint(0, 3))
+        f = build_row(tc, rec, w)
+        if wire.cells(f) != wire.cells_of_chunks(tc):          # a builder that does not reproduce the row: use it raw
+            rec, f = ("raw", 0, 0), wire.mk_fmt(tc)
+        out.append(wire.fmt_chunks(f))
+        recipes.append(rec)
+    return out, recipes
+
+
+class ArrayMaker:
+    """makes the array of each render of one history; `reuse` re-uses the PREVIOUS render's container object and
+    changes it in place (item assignment, append, del, insert, slice assignment; FSArray: arr[i] = row) - what an
+    application that keeps one list/FSArray around does"""
+
+    def __init__(self, w):
+        self.prev, self.w = None, w
+
+    def rows_of(self, case_rows, container, opts):
+        recs = (opts or {}).get("builds")
+        if not recs:
+            return None
+        return [build_row(wire.fmt_chunks(wire.mk_fmt(tc)) if False else tc, tuple(rec), self.w) for tc, rec in zip(case_rows, recs)]
+
+    def make(self, case_rows, container, opts=None):
+        opts = opts or {}
+        built = None
+        if opts.get("builds"):
+            # rebuild the rows through the API; the case's rows are the runs this produced at generation time
+            built = [build_row(tc0, tuple(rec), self.w) for tc0, rec in zip(opts["targets"], opts["builds"])]
+        new = mk_array(case_rows, container, built)
+        style = opts.get("reuse")
+        prev = self.prev
+        if style and prev is not None and type(prev) is type(new):
+            if isinstance(prev, list):
+                items = list(new)
+                if style == "slice":
+                    prev[:] = items
+                elif style == "items":
+                    for i in range(min(len(prev), len(items))):
+                        prev[i] = items[i]
+                    del prev[len(items):]
+                    prev.extend(items[len(prev):])
+                else:                                   # "insert": delete everything, insert one by one at the front
+                    del prev[:]
+                    for it in reversed(items):
+                        prev.insert(0, it)
+                new = prev
+            elif len(prev.rows) == len(new.rows):
+                for i, row in enumerate(new.rows):
+                    prev[i] = row                       # FSArray.__setitem__
+                new = prev
+        self.prev = new
+        return new
+
+
 def enc_term(t):
     s = t.state()
     r, c, pw, vis = s["cursor"]
@@ -156,6 +252,7 @@ def run_history(c):
     ref = Term(c["h"], c["w"], c["junk"], *c["cursor"])
     py = termref.PyteTerm(c["h"], c["w"], c["junk"], *c["cursor"]) if c.get("pyte", True) else None
     out = []
+    maker = ArrayMaker(c["w"])
     tok = termref.StreamTokenizer()
     for st in c["steps"]:
         if st[0] == "Z":
@@ -173,8 +270,8 @@ def run_history(c):
             else:
                 win.__exit__(None, None, None)
         else:
-            _, pos, rows, container = st
-            win.render_to_terminal(mk_array(rows, container), tuple(pos))
+            pos, rows, container = st[1], st[2], st[3]
+            win.render_to_terminal(maker.make(rows, container, st[4] if len(st) > 4 else None), tuple(pos))
         writes = rec.take()
         try:
             ops = tokenize(writes, tok)
@@ -259,7 +356,7 @@ def oracle(c, outs):
             # executed as reference-only operations): nothing can be judged - said loudly in the evidence
             c["_unreadable"] = o["error"]
             return None
-        _, pos, rows, _ = st
+        pos, rows = st[1], st[2]
         want = [(eff_row(rows[r])[:w] if r < len(rows) else []) for r in range(h)]
         want = tuple(tuple(row + [termref.BLANK] * (w - len(row))) for row in want)
         s = o["state"]
@@ -364,6 +461,29 @@ def container_for(r, rows, w=None):
     return r.choice(opts), rows
 
 
+def family(container):
+    return "fsarray" if container.startswith("fsarray") or container.startswith("text") else "list"
+
+
+def step_opts(r, rows, container, w, steps):
+    """options of a render step: rows built through the FmtStr API, and/or the previous render's container object
+    re-used and changed in place"""
+    opts = {}
+    if rows and container.partition(":")[0] in ("list", "fsarray", "fsarrayset") and r.random() < 0.35:
+        built, recs = built_rows(r, rows, w)
+        opts.update(builds=recs, targets=rows, rows=built)
+    last = steps[-1] if steps and steps[-1][0] == "R" else None
+    if last is not None and r.random() < 0.35:
+        # the SAME container object as in the previous render (no resize in between), changed in place
+        opts["reuse"] = r.choice(["slice", "items", "insert"])
+        if family(last[3]) != family(container) or (family(container) == "fsarray" and len(last[2]) != len(rows)):
+            if family(last[3]) == "list":
+                opts["container"] = "list"              # a list can hold any rows: the previous list object is re-used
+            else:
+                opts.pop("reuse")
+    return opts
+
+
 def rand_history(r, pyte=True):
     h, w = r.randint(1, 4), r.randint(1, 5)
     c = dict(h=h, w=w, junk=rand_junk(r, h, w), cursor=(r.randint(0, h - 1), r.randint(0, w - 1)),
@@ -382,8 +502,10 @@ def rand_history(r, pyte=True):
             rows = rand_array(r, h, w, prev)
             prev, rendered_at = rows, (h, w)
             container, rows = container_for(r, rows, w)
+            opts = step_opts(r, rows, container, w, c["steps"])
+            rows = opts.pop("rows", rows)
             prev = rows
-            c["steps"].append(("R", (r.randint(0, h - 1), r.randint(0, w - 1)), rows, container))
+            c["steps"].append(("R", (r.randint(0, h - 1), r.randint(0, w - 1)), rows, opts.pop("container", container), opts))
     if pyte and r.random() < 0.25:
         # inside the context: enter (alternate screen, hide the cursor) ... leave.  pyte has no alternate screen.
         c["steps"] = [("E",)] + c["steps"] + [("X",)]
@@ -441,7 +563,12 @@ def pair_cases(ctx):
         for n, (i, j) in enumerate(pairs):
             cases.append(dict(h=h, w=w, junk=[], cursor=(0, 0), hide=True, pyte=(n % (4 if ctx.thorough else 8) == 0), pair=True,
                               steps=[("R", (0, 0), arrays[i], PAIR_FIRST[n % 3].replace("W", str(w))),
-                                     ("R", (h - 1, w - 1), arrays[j], PAIR_SECOND[n % 5].replace("W", str(w)))]))
+                                     ("R", (h - 1, w - 1), arrays[j], PAIR_SECOND[n % 5].replace("W", str(w)))
+                                     if n % 4 else
+                                     ("R", (h - 1, w - 1), arrays[j], "list", dict(reuse=("slice", "items", "insert")[n % 3]))]))
+            if n % 4 == 0:
+                st0 = cases[-1]["steps"][0]
+                cases[-1]["steps"][0] = ("R", st0[1], st0[2], "list")          # same container family: the object is re-used
     return cases
 
 
